@@ -1316,7 +1316,18 @@ def check_pwl_bounds(prog, res, rule='L2'):
          and 'monotonicity' not in names_read(s.test)]
   if not top:
     raise AnalysisError('%s: bounds dispatch not found' % fn.qualname)
-  top = top[-1]
+  # everything after the mirror-recursion block is evaluated (the dispatch
+  # may be one nested block or a sequence of guarded steps with an early
+  # return)
+  first = min(body.index(t) for t in top)
+  if any(isinstance(s, ast.If) and 'monotonicity' in names_read(s.test)
+         for s in body[first:]):
+    raise AnalysisError('%s: bounds dispatch is interleaved with the '
+                        'monotonicity dispatch' % fn.qualname)
+  main_stmts = body[first:]
+
+  class _Returned(Exception):
+    pass
   n_cases = 0
   for cmin in ('NONE', 'BOUND', 'CLAMPED'):
     for cmax in ('NONE', 'BOUND', 'CLAMPED'):
@@ -1401,9 +1412,18 @@ def check_pwl_bounds(prog, res, rule='L2'):
                   raise AnalysisError('%s: augmented op' % fn.loc(st))
               elif isinstance(st, ast.Expr):
                 continue
+              elif isinstance(st, ast.Return):
+                if norm_text(st.value).replace(' ', '') not in (
+                    '(bias,heights)', 'bias,heights'):
+                  raise AnalysisError('%s: returns %s' % (
+                      fn.loc(st), norm_text(st.value)[:40]))
+                raise _Returned()
               else:
                 raise AnalysisError('%s: statement' % fn.loc(st))
-          run([top])
+          try:
+            run(main_stmts)
+          except _Returned:
+            pass
           n_cases += 1
           b1 = env['bias']
           dh = state['dh']
